@@ -8,7 +8,7 @@ import (
 	"os"
 	"testing"
 
-	"github.com/rulego/streamsql/utils/simrt"
+	"verif.local/simrt"
 	"github.com/rulego/streamsql/window"
 )
 
